@@ -6,6 +6,7 @@ from sa.rules import cpp_rules as C
 from sa.rules import write_rules as W
 from sa.rules import window_rules as WN
 from sa.rules import cpprange as CR
+from sa.rules import backend as B
 
 
 def main(tier):
@@ -29,6 +30,7 @@ def main(tier):
     chk.run("R-ALIASGUARD", W.aliasguard, cx.repo, floor=1)
     chk.run("R-WINDOW", WN.window, cx.cpp, floor=5)
     chk.run("R-NARROWARG", C.narrowarg, cx.cpp, floor=9)
+    chk.run("R-VIRTNARROW", B.virtnarrow, cx.repo, floor=5)
     chk.run("R-NARROWLIT", CR.narrowlit, cx.cpp, skip=r"IsBcd|ConvertToBinary|^Read|UncheckedRead", floor=10)
     chk.run("R-LOOPCOVER", CR.loopcover, cx.cpp, methods=("ConvertToBcd",), floor=64)
     chk.run("R-CPPRANGE", CR.cpprange, cx.cpp, floor=2000)
